@@ -106,7 +106,7 @@ func execOp(c *Ctx, line string) (out string) {
 				c.Fail("C09.typed", line, "error %T is not *date.ParseError", e1)
 				return "UNTYPED " + o1
 			}
-			if c.Owns("C09.zero") && (!d1.IsZero()) {
+			if c.Owns("C09.zero") && (!dateIsZeroValue(d1)) {
 				c.Fail("C09.zero", line, "value %v next to error", d1)
 				return "NONZERO " + o1
 			}
@@ -159,7 +159,16 @@ func execOp(c *Ctx, line string) (out string) {
 		return dateYMD(a.AddDuration(time.Duration(atoi64(f[4]))))
 	case "date.fromtime":
 		t := time.Unix(atoi64(f[1]), atoi64(f[2])).In(time.FixedZone("z", atoi(f[3])))
-		return dateYMD(date.FromTime(t))
+		d := date.FromTime(t)
+		if c.Owns("C07.fromtime.entry") { // every conversion entry point: the pointer method and Scan(time.Time)
+			var dp, ds date.Date
+			dp.FromTime(t)
+			if err := ds.Scan(t); err != nil || dateYMD(dp) != dateYMD(d) || dateYMD(ds) != dateYMD(d) {
+				c.Fail("C07.fromtime.entry", line, "FromTime %s, (*Date).FromTime %s, Scan %s (%v)", dateYMD(d), dateYMD(dp), dateYMD(ds), err)
+				return "MISMATCH-entry " + dateYMD(d) + " / " + dateYMD(dp) + " / " + dateYMD(ds)
+			}
+		}
+		return dateYMD(d)
 	case "date.new":
 		return dateYMD(date.New(atoi(f[1]), time.Month(atoi(f[2])), atoi(f[3])))
 	case "date.filter":
@@ -253,8 +262,10 @@ func execOp(c *Ctx, line string) (out string) {
 		r := roman.Rule(atoi(f[2]))
 		e1 := roman.Valid(string(in), r)
 		e2 := roman.Valid(append([]byte(nil), in...), r)
-		if c.Owns("C17.roman.valid.types") && (errText(e1) != errText(e2)) {
-			c.Fail("C17.roman.valid.types", line, "%q vs %q", errText(e1), errText(e2))
+		e3 := roman.Valid(namedString(in), r)
+		e4 := roman.Valid(namedBytes(append([]byte(nil), in...)), r)
+		if c.Owns("C17.roman.valid.types") && (errText(e1) != errText(e2) || errText(e1) != errText(e3) || errText(e1) != errText(e4)) {
+			c.Fail("C17.roman.valid.types", line, "%q vs %q vs %q vs %q", errText(e1), errText(e2), errText(e3), errText(e4))
 			return "MISMATCH-input-types"
 		}
 		if e1 != nil {
